@@ -94,6 +94,14 @@ def cases(draw):
                 init.append((f"d{draw(st.integers(2, 4))}.Setting", f"{src} + {marker}"))
         mainblock = draw(st.booleans()) and ui > 0
         model.append({"globals": gl, "funcs": funcs, "unused": unused, "mainblock": mainblock, "init": init})
+    # functions of the main file call library functions (FX-D44)
+    for f in model[0]["funcs"]:
+        for _ in range(draw(st.integers(0, 2))):
+            if len(units) > 1:
+                ui = draw(st.integers(1, len(units) - 1))
+                c = model[ui]["funcs"][draw(st.integers(0, len(model[ui]["funcs"]) - 1))]
+                args = ", ".join(draw(st.sampled_from(["1", "2", "d3.Setting", f["params"][0] + " + 1" if f["params"] else "4"])) for _ in range(c["npar"]))
+                f["body"].insert(draw(st.integers(1 if f["body"] and f["body"][0][0] == "global" else 0, len(f["body"]))), ("libcall", ui, c["name"], args, c["has_ret"]))
     # main loop: calls into every unit
     calls = []
     for ui, (uname, alias) in enumerate(units):
@@ -110,7 +118,7 @@ def cases(draw):
             "opts": VECS[draw(st.integers(0, len(VECS) - 1))], "env_seeds": [draw(st.integers(0, 2**31 - 1))]}
 
 
-def render_func(f, prefix, gprefix, callprefix):
+def render_func(f, prefix, gprefix, callprefix, libname=None, merged=False):
     L = [f"def {prefix}{f['name']}({', '.join(f['params'])}):"]
     for st_ in f["body"]:
         if st_[0] == "global":
@@ -120,6 +128,9 @@ def render_func(f, prefix, gprefix, callprefix):
         elif st_[0] == "call":
             c = f"{callprefix}{st_[1]}({st_[2]})"
             L.append(f"    d5.Setting = {c}" if st_[3] else f"    {c}")
+        elif st_[0] == "libcall":
+            c = libname(st_[1], merged) + f"{st_[2]}({st_[3]})"
+            L.append(f"    d5.Setting = {c}" if st_[4] else f"    {c}")
         elif st_[0] == "write":
             L.append(f"    {st_[1]} = {requal(st_[2], gprefix, f)}")
         elif st_[0] == "earlyret":
@@ -175,9 +186,10 @@ def render(case, with_mainblocks=True, with_unused=True):
     for g, init in m0["globals"]:
         main.append(f"{g} = {init}")
         merged.append(f"{g} = {init}")
+    libname = lambda ui, mrg: (units[ui][1] or units[ui][0]) + ("_" if mrg else ".")
     for f in m0["funcs"]:
-        main += render_func(f, "", "", "")
-        merged += render_func(f, "", "", "")
+        main += render_func(f, "", "", "", libname, False)
+        merged += render_func(f, "", "", "", libname, True)
     main.append("while True:")
     merged.append("while True:")
     for ui, fname, args, has_ret in case["calls"]:
@@ -233,7 +245,8 @@ def check_case(case, stats=None, K=oracle.K_QUICK):
         ea = ra.get("error", {}).get("description", "")
         eb = rb.get("error", {}).get("description", "")
         if ("error" in ra) != ("error" in rb) and "out of registers" not in ea + eb:
-            raise Violation("C13:split-changes-acceptance", {"modules": A, "merged": B, "error_modules": ea[:300], "error_merged": eb[:300], "opts": opts})
+            raise Violation("C13:split-changes-acceptance:" + oracle.error_class(ea or eb) + d44_suffix(A),
+                            {"modules": A, "merged": B, "error_modules": ea[:300], "error_merged": eb[:300], "opts": opts})
         if stats is not None:
             stats.discarded["reject:" + ("registers" if "out of registers" in ea + eb else oracle.norm_error(ea or eb))] += 1
         return
@@ -296,9 +309,31 @@ def check_case(case, stats=None, K=oracle.K_QUICK):
         called = {c[0] for c in case["calls"]}
         if any(ui not in called and model[ui].get("init") for ui in range(1, len(units))):
             stats.classes["module-imported-for-its-module-level-code-only"] += 1
+        if any(st_[0] == "libcall" for f in model[0]["funcs"] for st_ in f["body"]):
+            stats.classes["library-call-inside-a-main-file-function"] += 1
         if nmod >= 2 and collision and gw:
             stats.nontrivial.add(sha([A, opts])[:16])
             stats.sample({"modules": A, "options": opts}, limit=2)
+
+
+def d44_suffix(A):
+    """shape of open finding F-D44: a library function called from inside a function of the main file"""
+    import ast
+
+    try:
+        tree = ast.parse(A[""])
+    except SyntaxError:
+        return ""
+    mods = set()
+    for n in ast.walk(tree):
+        if isinstance(n, ast.ImportFrom) and n.module == "library":
+            mods.update(a.asname or a.name for a in n.names)
+    for f in ast.walk(tree):
+        if isinstance(f, ast.FunctionDef):
+            for c in ast.walk(f):
+                if isinstance(c, ast.Call) and isinstance(c.func, ast.Attribute) and isinstance(c.func.value, ast.Name) and c.func.value.id in mods:
+                    return ":D44-library-call-inside-a-function-of-the-main-file"
+    return ""
 
 
 def check_literal(case, K):
@@ -307,7 +342,8 @@ def check_literal(case, K):
     A, B = case["A"], case["B"]
     ra, rb = oracle.compile_case(A, opts), oracle.compile_case({"": B}, opts)
     if "error" in ra or "error" in rb:
-        raise Violation("C13:split-changes-acceptance", {"a": oracle.public(ra), "b": oracle.public(rb)})
+        e = (ra.get("error") or rb.get("error"))["description"]
+        raise Violation("C13:split-changes-acceptance:" + oracle.error_class(e) + d44_suffix(A), {"a": oracle.public(ra), "b": oracle.public(rb)})
     for es in case.get("env_seeds", [1, 2]):
         ma, mb = run_vm(ra["code"], es, K), run_vm(rb["code"], es, K)
         kind, d = compare.compare_vm_vm(ma, mb)
